@@ -2052,6 +2052,35 @@ def bridge_files(fresh_text, outp):
     cur.append('end Sucds.GenFnNow')
     return '\n\n'.join(out), '\n'.join(cur) + '\n', names
 
+def detect_renames(fresh_text, outp):
+    """a function that disappeared and one that appeared under the same type, with the same signature, whose new name is an
+    identifier that occurs nowhere in the pinned sources: a rename. Returns ({new lean name: old lean name}, {new ident: old ident}).
+    (Every caller had to be updated for the crate to compile, and a fresh identifier cannot capture any other call.)"""
+    pin_path = os.path.join(os.path.dirname(outp), PIN_NAME)
+    if not os.path.exists(pin_path): return {}, {}
+    pinned = dict((n, b) for k, n, b in split_blocks(open(pin_path).read()) if k == 'def')
+    fresh = dict((n, b) for k, n, b in split_blocks(fresh_text) if k == 'def')
+    removed = [n for n in pinned if n not in fresh]; added = [n for n in fresh if n not in pinned]
+    if not removed or not added or len(removed) > 12: return {}, {}
+    try: idents = set(json.load(open(os.path.join(os.path.dirname(os.path.abspath(__file__)), 'pinned_skeleton.json'))).get('idents', []))
+    except Exception: return {}, {}
+    lean_map = {}; ident_map = {}
+    for a in added:
+        pre, _, last = a.rpartition('.')
+        if last in idents or last.rstrip('_') in idents: continue
+        for r in removed:
+            rpre, _, rlast = r.rpartition('.')
+            if rpre != pre or r in lean_map.values(): continue
+            sig_a = re.sub(r'(?<![\w.])%s(?!\w)' % re.escape(a), r, def_text(fresh[a]).split(':=')[0])
+            if sig_a == def_text(pinned[r]).split(':=')[0] and ident_map.get(last, rlast) == rlast:
+                lean_map[a] = r; ident_map[last] = rlast; break
+    return lean_map, ident_map
+
+def apply_renames(text, lean_map):
+    for a, r in lean_map.items():
+        text = re.sub(r'(?<![\w.])%s(?!\w)' % re.escape(a), r, text)
+    return text
+
 def lean_errors(path, lean_dir):
     import subprocess
     r = subprocess.run(['lake', 'env', 'lean', os.path.abspath(path)], cwd=lean_dir, capture_output=True, text=True)
@@ -2063,6 +2092,11 @@ def main():
     curp = os.path.join(os.path.dirname(outp), 'Current.lean')
     lean_dir = os.path.dirname(os.path.dirname(os.path.dirname(os.path.abspath(outp))))
     text, report = translate_crate(repo)
+    lean_map, ident_map = ({}, {}) if '--repin' in sys.argv else detect_renames(text, outp)
+    if lean_map:
+        text = apply_renames(text, lean_map)
+        for e in report['translated']: e['name'] = lean_map.get(e['name'], e['name'])
+    report['renamed'] = ident_map
     if '--repin' in sys.argv:
         open(os.path.join(os.path.dirname(outp), PIN_NAME), 'w').write(text)
     old = open(outp).read() if os.path.exists(outp) else None
@@ -2080,6 +2114,10 @@ def main():
                 if not bad or bad == ['<unlocated>']: break
                 exclude |= set(bad)
                 text, report = translate_crate(repo, exclude)
+                if lean_map:
+                    text = apply_renames(text, lean_map)
+                    for e in report['translated']: e['name'] = lean_map.get(e['name'], e['name'])
+                report['renamed'] = ident_map
                 fns_text, cur_text, cands = bridge_files(text, outp)
                 open(outp, 'w').write(fns_text); open(curp, 'w').write(cur_text)
             report['rejected_by_lean'] = sorted(exclude)
